@@ -48,6 +48,27 @@ def cases(tier, seed):
         for e in rng.sample(unary, 4):
             add(e, d2, ('mixed',))
         add(rng.choice(hof) % rng.choice(fns1), d2, ('mixed-hof',))
+    # the call protocol made visible: callbacks that return or test EVERY parameter they receive, of arity 0..6,
+    # plus built-ins / partials with 1..4 parameters, on arrays, scalars, objects, nested arrays and missing values
+    observers = ['function(){"k"}', 'function($v){[$v]}', 'function($v,$i){[$v,$i]}', 'function($v,$i,$a){[$v,$i,$a]}', 'function($v,$i,$a,$x){[$v,$i,$a,$x]}', 'function($v,$i,$a,$x,$y){$exists($y)}',
+                 'function($v,$i,$a,$x,$y,$z){1}', 'function($v,$i,$a){$type($a) = "array"}', 'function($v,$i,$a){$count($a) > $i}', 'function($v,$i,$a){$a[$i] = $v}', 'function($v,$i,$a){$string($a)}',
+                 'function($v,$i){$i = 0}', 'function($v,$i,$a){$i = $count($a) - 1}', 'function($v,$i,$a){$type($i) = "number" and $exists($a)}', '$replace', '$substring', '$pad', '$contains', '$append',
+                 '$replace(?, ?, ?, ?)', '$substring(?, ?, ?)', '$append(?, ?)', 'function($v)<x:x>{$v}', 'function($v,$i)<xn:n>{$i}', 'function($v,$i,$a)<xna:a>{$a}', 'function($v,$i,$a,$x)<xnax:n>{$i}']
+    subjects = [[], [5], [5, 6], [5, 6, 7], 5, 'x', {'a': 1}, [[1, 2]], [[1], [2]], [{'a': 1}, {'a': 2}], None, [True, False, 0, '']]
+    for sub, f in itertools.product(subjects, observers):
+        d = {} if sub is None else {'a': sub}
+        for h in ['$map(a, %s)', '$filter(a, %s)', '$single(a, %s)']:
+            if tier == 'quick' and rng.random() < 0.4:
+                continue
+            add(h % f, d, ('protocol',))
+        if rng.random() < 0.5:
+            add('a.$map($, %s)' % f, d, ('protocol',)); add('$map(a, %s) ~> $count()' % f, d, ('protocol',))
+    robs = ['function($p,$q){[$p,$q]}', 'function($p,$q,$i){[$p,$q,$i]}', 'function($p,$q,$i,$a){[$p,$q,$i,$a]}', 'function($p){$p}', 'function(){1}', 'function($p,$q,$i,$a,$x){$x}', '$append', '$replace', '$string',
+            'function($p,$q)<xx:x>{$q}', '$substring(?, ?)', 'function($p,$q){$p & "," & $q}']
+    for sub, f, init in itertools.product(subjects, robs, ['', ', 100', ', nothing', ', []', ', "s"']):
+        if tier == 'quick' and rng.random() < 0.5:
+            continue
+        add('$reduce(a, %s%s)' % (f, init), {} if sub is None else {'a': sub}, ('protocol', 'reduce'))
     # scalars in array position
     for v in [5, 'x', True, {'a': 1}]:
         for e in unary:
@@ -59,6 +80,6 @@ def cases(tier, seed):
 def run(tier, seed, replay=None):
     return simple_run('C15', tier, seed, replay,
         'exhaustive arrays of length <= 2 (quick) / <= 3 (thorough) over a 5-value domain {1,"1",true,[1],{"a":1}} against every array function and '
-        'every higher-order function with lambdas of arity 0..4, built-ins, partials and chains; random numeric arrays <= 8 for aggregates/$reduce incl. '
+        'every higher-order function with lambdas of arity 0..4, built-ins, partials and chains; the call protocol made visible (26 callbacks of arity 0..6 that return or test every parameter, typed lambdas, multi-parameter built-ins and partials) on 12 subjects (arrays, scalars, objects, nested, missing) for $map/$filter/$single and $reduce with 5 kinds of initial value; random numeric arrays <= 8 for aggregates/$reduce incl. '
         'overflow; mixed-kind arrays; scalars and missing arguments; $shuffle compared through order-insensitive expressions; distinct = distinct (expression, input)',
         cases)
